@@ -185,6 +185,9 @@ func (f *frame) blockHooks(b *ssa.BasicBlock, idx int, in ssa.Instruction, cur *
 		}
 		sc.old = ib.snap
 		for i, rq := range ib.ct.Requires {
+			if rq.Assumed {
+				continue
+			}
 			t, err := sc.evalBool(rq.E)
 			if err != nil {
 				vc.errs = append(vc.errs, fmt.Sprintf("%s (inlined copy %s): %v", rq.Line, ib.label, err))
